@@ -6,7 +6,8 @@
 (*   containers: k \in {"tuple","list","dict","nt","cust","none"}, c = the  *)
 (*               ("nt" = a namedtuple: it IS a tuple for tuple[...] hints)  *)
 (*               children (dict: in sorted key order, keys = the keys)      *)
-(*   atoms:      k \in {"int","str","arr"}  (arr: shape, dt \in {"f","i"})  *)
+(*   atoms:      k \in {"int","str","flt","arr"} (arr: shape, dt \in {"f","i"}) *)
+(*               "flt" is a float EQUAL to the int atom (7.0 == 7, same hash)  *)
 (* Structure [k, c, keys] with k = "*" at the leaves.                       *)
 (* Leaf type L (tuples): <<"int">> <<"str">> <<"tup2">> (tuple[int,int])    *)
 (*   <<"any">> <<"arr", toks, cat>> <<"union", L1, L2>> <<"tupA", L>>        *)
@@ -25,9 +26,10 @@ WithArr(m, am) == PMemo(am.single, am.variadic, m.pytree)
 Node(k, c, keys) == [k |-> k, c |-> c, keys |-> keys, shape |-> << >>, dt |-> ""]
 IntAtom == Node("int", << >>, << >>)
 StrAtom == Node("str", << >>, << >>)
+FltAtom == Node("flt", << >>, << >>)
 ArrAtom(shape, dt) == [k |-> "arr", c |-> << >>, keys |-> << >>, shape |-> shape, dt |-> dt]
 NoneNode == Node("none", << >>, << >>)
-IsAtom(x) == x.k \in {"int", "str", "arr"}
+IsAtom(x) == x.k \in {"int", "str", "flt", "arr"}
 
 Star == [k |-> "*", c |-> << >>, keys |-> << >>]
 SNode(k, c, keys) == [k |-> k, c |-> c, keys |-> keys]
